@@ -11,6 +11,7 @@ RULE = ("kinds: steps (non-adaptive method, no intervention: every recorded step
         "implicit methods may shorten only with a logged Newton failure), shift ((t0,tf) vs (t0+c,tf+c) on an autonomous system), "
         "reflect (y'=f(y) on (t0,tf) vs w'=-f(w) on (-t0,-tf)); non-trivial = >=3 full-length steps; distinct by (kind,method,span,dt,shift)")
 ASSUMPTIONS = ["the set of fixed-step methods is computed at run time from is_adaptive", "dt >= 64 ulp of the largest time"]
+RULE += " Strata added in the fourth seeding round: Spans that are a whole number of steps plus a sliver, time shifts by 1e7..2e9, and the requested step changed through the dt setter between calls."
 FLOORS = {"quick": {"runs_checked": 120, "full_length_steps": 1200, "shift_pairs": 30, "reflect_pairs": 30, "backward_runs": 40, "multi_leg_runs": 12, "richardson_pairs": 6, "facade_runs": 10, "facade_runs_backward": 3, "sliver_remainder_runs": 15, "shift_pairs_far_from_the_origin": 12, "dt_changed_between_calls": 20},
           "thorough": {"runs_checked": 1200, "full_length_steps": 12000, "shift_pairs": 120, "reflect_pairs": 120, "backward_runs": 400, "multi_leg_runs": 120, "richardson_pairs": 24, "facade_runs": 100, "facade_runs_backward": 30, "sliver_remainder_runs": 60, "shift_pairs_far_from_the_origin": 60, "dt_changed_between_calls": 100}}
 SPANS = [(0.0, 2.0), (-5.0, 1.0), (-10.0, -5.0), (10.0, 5.0), (1.0, -5.0), (3.0, -3.0), (0.0, -2.0), (-2.0, 0.0), (-0.5, 0.25), (7.0, 7.5), (100.0, 103.0)]
